@@ -3,7 +3,7 @@ from pyvc_rt import *
 from contracts.spec import *
 from gym_gridverse.geometry import Area, Orientation, Position, Shape
 from gym_gridverse.grid import Grid
-from gym_gridverse.grid_object import Floor, Hidden, Wall
+from gym_gridverse.grid_object import Floor, Hidden, NoneGridObject, Wall
 
 GR = 'gym_gridverse.grid:'
 
@@ -181,3 +181,21 @@ def grid_object_types(self, c):
     ensures('total', lambda: returned())
     ensures('exactly-the-classes-of-the-cells', lambda: (c in result()) == exists_cells(self, lambda p: type(self[p]) is c))
     ensures('pure', lambda: same(self, g0))
+
+
+@lemma(args={'p': 'Position', 'o': 'Orientation', 'item': 'Obj', 'p2': 'Position', 'o2': 'Orientation', 'item2': 'Obj'},
+       props=['C03', 'C08', 'C16'])
+def agent_accessors_follow_assignment(p, o, item, p2, o2, item2):
+    """the dynamics move, turn and load the agent by assignment; everything read from the agent afterwards must be
+    what an agent built with the new values gives"""
+    from gym_gridverse.agent import Agent
+    from gym_gridverse.geometry import Transform
+    a = Agent(p, o, item)
+    a.position = p2
+    a.orientation = o2
+    a.grid_object = item2
+    b = Agent(p2, o2, item2)
+    check('pose', lambda: a.position == p2 and a.orientation is o2 and a.transform == Transform(p2, o2))
+    check('front-cell', lambda: a.front() == padd(p2, unit(o2)))
+    check('equal-to-an-agent-built-with-the-new-values', lambda: a == b and hash(a) == hash(b))
+    check('default-hand-is-empty', lambda: isinstance(Agent(p, o).grid_object, NoneGridObject))
